@@ -10,9 +10,16 @@ import time
 
 VERIF = os.path.dirname(os.path.dirname(os.path.abspath(__file__)))
 SEEDED = os.path.join(VERIF, "seeded")
+# under `vp run --with-repo` the patches go to the snapshot of /repo and the harness is built against it
+REPO = os.environ.get("VP_RUN_REPO", REPO)
 
 
 def main():
+    if REPO != "/repo":
+        cargo = os.path.join(VERIF, "harness", "Cargo.toml")
+        t = open(cargo).read().replace('path = "/repo"', 'path = "%s"' % REPO)
+        open(cargo, "w").write(t)
+        os.environ["VERIF_REPO"] = REPO
     ids = sys.argv[1:] or sorted(os.listdir(SEEDED))
     for sid in ids:
         d = os.path.join(SEEDED, sid)
@@ -20,7 +27,7 @@ def main():
         meta = json.load(open(meta_p))
         prop = meta["property"]
         patch = os.path.join(d, "patch.diff")
-        if subprocess.run(["git", "-C", "/repo", "apply", patch]).returncode != 0:
+        if subprocess.run(["git", "-C", REPO, "apply", patch]).returncode != 0:
             print(sid, "PATCH DOES NOT APPLY")
             continue
         t0 = time.time()
@@ -28,19 +35,19 @@ def main():
             p = subprocess.run([os.path.join(VERIF, "check"), prop, "--tier", "quick"], cwd=VERIF,
                                stdout=subprocess.PIPE, stderr=subprocess.PIPE, text=True)
         finally:
-            subprocess.run(["git", "-C", "/repo", "checkout", "--", "."])
+            subprocess.run(["git", "-C", REPO, "checkout", "--", "."])
         line = [l for l in p.stdout.splitlines() if l.startswith("VIOLATION")]
         first = ""
         for l in p.stderr.splitlines():
             if "violation(s); first:" in l:
                 first = l[:600]
-        meta["detection"] = {"check": "./check %s --tier quick" % prop, "exit": p.returncode, "detected": bool(line) and p.returncode == 1,
+        meta["detection"] = {"where": "in place (/repo)" if REPO == "/repo" else "snapshot of /repo and of committed /verif (vp run)", "check": "./check %s --tier quick" % prop, "exit": p.returncode, "detected": bool(line) and p.returncode == 1,
                              "wall_s": round(time.time() - t0, 1), "first_violation": first,
-                             "repo_head": subprocess.run(["git", "-C", "/repo", "rev-parse", "--short", "HEAD"], stdout=subprocess.PIPE, text=True).stdout.strip()}
+                             "repo_head": subprocess.run(["git", "-C", REPO, "rev-parse", "--short", "HEAD"], stdout=subprocess.PIPE, text=True).stdout.strip()}
         json.dump(meta, open(meta_p, "w"), indent=1)
         print(sid, "detected" if meta["detection"]["detected"] else "MISSED (exit %s)" % p.returncode)
     # leave the evidence of the unchanged tree in place: re-run the checks that were touched
-    subprocess.run(["git", "-C", "/repo", "status", "--short"])
+    subprocess.run(["git", "-C", REPO, "status", "--short"])
 
 
 if __name__ == "__main__":
